@@ -524,21 +524,36 @@ class NumJob(process_mod.AbstractJob):
 
 
 class WorkerJobQueue:
-    """child side of the shared job queue of run_jobs: the worker waits at its gate before
-    looking at the queue (so the schedule decides which worker takes which job)"""
+    """child side of the shared job queue of run_jobs: the worker waits at its gate before it looks at
+    the queue (so the schedule decides which worker takes which job).  One gate per take: at `empty()`
+    (the code as it is tests `empty()` and then calls `get()`), or at `get()` when no `empty()` preceded."""
 
     def __init__(self, real, w):
         self._real, self._w = real, w
+        self._passed = False
 
-    def empty(self):
+    def _gate(self):
         if _worker_index() is not None and GATED.value:
             GATES[self._w].acquire()
+            return True
+        return False
+
+    def empty(self):
+        if self._gate():
+            self._passed = True
+            # the schedule opens a gate long after the parent has queued the jobs; wait out the feeder thread
             for _ in range(30):
                 if not self._real.empty():
                     return False
                 time.sleep(0.005)
             return True
         return self._real.empty()
+
+    def get(self, *a, **k):
+        if not self._passed:
+            self._gate()
+        self._passed = False
+        return self._real.get(*a, **k)
 
     def __getattr__(self, name):
         return getattr(self._real, name)
@@ -638,7 +653,35 @@ def case_jobs_free(c):
             "raised": raised, "summaries": summaries, "sorted": srt, "evals": evals_of(range(len(jobs)))}
 
 
-KINDS = {"smap": case_smap, "smap_free": case_smap_free, "init": case_init, "emcee": case_emcee,
+class TrivialJob(process_mod.AbstractJob):
+    def perform(self):
+        return GridJobResult(SimpleNamespace(samples_summary=self.number), [self.number], self.number)
+
+
+def case_jobs_race(c):
+    """Process.run_jobs free-running on quick jobs, repeated: does every call return?"""
+    GATED.value = 0
+    hangs, wrong = 0, 0
+    for _ in range(c["repeat"]):
+        signal.alarm(0)
+        signal.alarm(c.get("limit", 3))
+        try:
+            items = list(process_mod.Process.run_jobs([TrivialJob(number=i) for i in range(c["jobs"])], c["cores"]))
+            if sorted(it.number for it in items) != list(range(c["jobs"])):
+                wrong += 1
+        except CaseTimeout:
+            hangs += 1
+        finally:
+            signal.alarm(0)
+            alive = mp.active_children()
+            for p in alive:
+                p.terminate()
+            for p in alive:
+                p.join(1.0)
+    return {"hangs": hangs, "wrong": wrong, "calls": c["repeat"]}
+
+
+KINDS = {"jobs_race": case_jobs_race, "smap": case_smap, "smap_free": case_smap_free, "init": case_init, "emcee": case_emcee,
          "jobs": case_jobs, "jobs_free": case_jobs_free}
 
 
@@ -646,7 +689,7 @@ def main():
     cases = json.load(open(sys.argv[1]))["cases"]
     out = []
     for c in cases:
-        signal.alarm(90)
+        signal.alarm(8 if c["kind"] == "jobs_free" else 90)
         try:
             t0 = time.time()
             out.append({"ok": KINDS[c["kind"]](c)})
@@ -654,7 +697,7 @@ def main():
         except Stall as e:
             out.append({"exc": "Stall", "msg": str(e)[:300]})
         except CaseTimeout:
-            out.append({"exc": "Timeout", "msg": "case did not finish within 90 s"})
+            out.append({"exc": "Timeout", "msg": "case did not finish within its time limit"})
         except BaseException as e:  # noqa
             import traceback
             out.append({"exc": type(e).__name__, "msg": (str(e) + " | " + traceback.format_exc()[-600:])[:900]})
